@@ -355,6 +355,12 @@ func TestCheck(t *testing.T) {
 		}
 	}
 	engine.Explore(p1Lindell17, engine.Opts{Name: "P1-lindell17/T23-q12", DevBound: 1, Serial: true, Procs: 16, CrashTrace: true, Engine: "SCHED", Budget: engine.Budget(90*time.Second, 6*time.Minute)})
+	for _, mult := range []string{"softspoken", "bbot"} {
+		if !engine.Thorough() {
+			break // one execution is a complete three-party DKLs23 signing run (seconds): thorough tier only
+		}
+		engine.Explore(p1DKLs23(mult), engine.Opts{Name: "P1-dkls23-" + mult + "/T23-q123", DevBound: 1, Serial: true, Procs: 16, CrashTrace: true, Engine: "SCHED", Budget: 12 * time.Minute})
+	}
 	engine.Explore(racePass, engine.Opts{Name: "free-running-race-pass", Serial: true})
 	if engine.Thorough() {
 		engine.Explore(func(x *engine.X) { e1(x, 4) }, engine.Opts{Name: "E1-echo-n4", DevBound: 1, Serial: true, Procs: 16, Engine: "SCHED", Budget: 6 * time.Minute})
